@@ -112,10 +112,10 @@ chooses — is answered by `timeAt 0 cs`.
 and `stableArgsort` in place of an arbitrary sorting permutation `σ`. -/
 theorem bms_times_partial (g : Array Rat) (M : Rat) (hM : 0 < M) (c0 : BcSnap) (rest : List BcSnap)
     (h0 : c0.snap.measure = 0 ∧ c0.snap.beat = 0) (hgood : ∀ c ∈ c0 :: rest, GoodChange M c) (hch : ChainLe c0 rest)
-    (hst : bcsOfBco g (⟨c0.bpm, c0.met, 0⟩ :: cumTimes 0 c0 rest) = .ok (⟨c0.bpm, c0.met, 0⟩ :: cumTimes 0 c0 rest, c0 :: rest)) :
-    fromBcSnap 0 (c0 :: rest) false = .ok (⟨c0.bpm, c0.met, 0⟩ :: cumTimes 0 c0 rest) ∧
+    (hst : bcsOfBco g (⟨c0.bpm, c0.met, 0⟩ :: bmsCumTimes 0 c0 rest) = .ok (⟨c0.bpm, c0.met, 0⟩ :: bmsCumTimes 0 c0 rest, c0 :: rest)) :
+    fromBcSnap 0 (c0 :: rest) false = .ok (⟨c0.bpm, c0.met, 0⟩ :: bmsCumTimes 0 c0 rest) ∧
     ∀ (σ : List Nat) (qs : List Snap), SortsAsc σ qs → (∀ q ∈ qs, 0 ≤ q.measure ∧ 0 ≤ q.beat) →
-      offsetsWith g σ (⟨c0.bpm, c0.met, 0⟩ :: cumTimes 0 c0 rest) qs = .ok (qs.map (timeAt 0 (c0 :: rest))) := by
+      offsetsWith g σ (⟨c0.bpm, c0.met, 0⟩ :: bmsCumTimes 0 c0 rest) qs = .ok (qs.map (timeAt 0 (c0 :: rest))) := by
   have hc0 : GoodChange M c0 := hgood c0 (by simp)
   have hrest : ∀ c ∈ rest, GoodChange M c := fun c hc => hgood c (by simp [hc])
   constructor
@@ -124,7 +124,7 @@ theorem bms_times_partial (g : Array Rat) (M : Rat) (hM : 0 < M) (c0 : BcSnap) (
     simp only [hsort, h0.1, h0.2, ne_eq, not_true_eq_false, or_self, if_false, Bool.false_eq_true, false_and]
     unfold fromBcSnapNoReseat
     simp only [hsort, h0.1, h0.2, ne_eq, not_true_eq_false, or_self, if_false]
-    rw [cumOffsets_eq M hM rest 0 c0 hc0 hrest hch]
+    rw [bms_cumOffsets_eq M hM rest 0 c0 hc0 hrest hch]
     rfl
   · intro σ qs hσ hq
     apply offsetsWith_order g σ _ qs _ _ (timeAt 0 (c0 :: rest)) hst hσ
@@ -144,7 +144,7 @@ example :
     let c0 : BcSnap := ⟨120, 4, ⟨0, 0, some 4⟩⟩
     let rest : List BcSnap := [⟨60, 4, ⟨1, 2, some 4⟩⟩]
     (∀ c ∈ c0 :: rest, GoodChange 4 c) ∧ ChainLe c0 rest ∧
-    bcsOfBco (grid 4).toArray (⟨c0.bpm, c0.met, 0⟩ :: cumTimes 0 c0 rest) = .ok (⟨c0.bpm, c0.met, 0⟩ :: cumTimes 0 c0 rest, c0 :: rest) := by
+    bcsOfBco (grid 4).toArray (⟨c0.bpm, c0.met, 0⟩ :: bmsCumTimes 0 c0 rest) = .ok (⟨c0.bpm, c0.met, 0⟩ :: bmsCumTimes 0 c0 rest, c0 :: rest) := by
   refine ⟨?_, ?_, ?_⟩
   · intro c hc
     simp only [List.mem_cons, List.not_mem_nil, or_false] at hc
